@@ -213,6 +213,8 @@ def gen_and_widened(tier, s2, p2):
                 ob = u_operand(b, how_b, 2) if how_b else leaf(b)
                 for sizes in groupings1:
                     yield and_case("and", [(oa, ob)], sizes, 1, variant=["format-U"])
+                if how_a != "active":
+                    yield and_case("and", [(oa, ob)], [1], 1, variant=["format-U", "tensor-owned"])
                 yield and_case("and", [(oa, ob), (leaf(b), leaf(a))], [2], 1, variant=["format-U"])
     # lazy fibers as operands, on either side
     for x in sub:
@@ -308,6 +310,9 @@ def gen_and_random(rng, count):
             variant.append("coords-multidigit")
         if kind == "and" and rng.random() < 0.15:
             variant.append(rng.choice(["prebuilt", "intersection-two-finger"]))
+        if rng.random() < 0.1 and "lazy-operand" not in variant and not any(
+                isinstance(o, dict) and o.get("how") == "active" for pr in pairs for o in pr):
+            variant.append("tensor-owned")
         sizes = rng.choice(list(compositions(k)))
         if rng.random() < 0.3:
             sizes = [1] * k
@@ -524,8 +529,27 @@ def _leaf_fiber(lf, dflt, vals, **kw):
     return f
 
 
-def build_operand(spec, dflt, vals):
+_keep = []     # tensors owning operand fibers stay alive for the duration of a case
+
+
+def _owned(lf, dflt, vals, fmt=None, shape=None):
+    """the operand as the root fiber of a one-rank tensor (format set through the tensor)"""
+    Tensor = H.ft().Tensor
+    f = _leaf_fiber(lf, dflt, vals)
+    kw = {"shape": [shape]} if shape is not None else {}
+    t = Tensor.fromFiber(rank_ids=["K"], fiber=f, default=real_val(dflt, dflt, vals), **kw)
+    if fmt:
+        t.setFormat("K", fmt)
+    _keep.append(t)
+    return t.getRoot()
+
+
+def build_operand(spec, dflt, vals, owned=False):
     """a real operand of `a & b` from its spec (public constructors / operators only)"""
+    if owned and isinstance(spec, list):
+        return _owned(spec, dflt, vals)
+    if owned and "u" in spec and spec["how"] in ("estimated", "declared"):
+        return _owned(spec["leaf"], dflt, vals, "U", spec["shape"] if spec["how"] == "declared" else None)
     if isinstance(spec, list):
         return _leaf_fiber(spec, dflt, vals)
     if "u" in spec:
@@ -560,6 +584,7 @@ def run_and(case):
         i += s
     case["groups"] = groups
     built = {}
+    del _keep[:]
 
     def operands(idx):
         """fresh operands for every intersection, unless the variant says otherwise"""
@@ -571,7 +596,8 @@ def run_and(case):
             built[idx] = (a, b)
         key = idx if not ({"same-operands", "same-result"} & variant) else json.dumps(pairs[idx])
         if key not in built:
-            built[key] = (build_operand(pairs[idx][0], dflt, vals), build_operand(pairs[idx][1], dflt, vals))
+            ow = "tensor-owned" in variant
+            built[key] = (build_operand(pairs[idx][0], dflt, vals, ow), build_operand(pairs[idx][1], dflt, vals, ow))
         return built[key]
 
     results = {}
